@@ -14,7 +14,7 @@ RULE_TEXT = (
     "ancestor of v) x every rule with 1-2 pairwise-unrelated subjects and objects, both filter kinds, 12 shapes + 2 "
     "'anything' aliases; and, with imports of the root allowed, every rule with explicit objects in which some subject is the "
     "same module as, an ancestor of or a descendant of some object ('sub modules of X should not import X'; quick: 1x1 rules "
-    "on relations with <= 3 edges and 2x2 batches with <= 2 edges, thorough: 1x1 on all 2^15 relations, batches with <= 4). Random part: Hypothesis trees (<=14 modules, depth<=4, prefix-colliding sibling names), <=16 "
+    "on relations with <= 3 edges and 2x2 batches with <= 2 edges, thorough: 1x1 with <= 6 edges, batches with <= 3, 1x1 on T5 with <= 3). Random part: Hypothesis trees (<=14 modules, depth<=4, prefix-colliding sibling names), <=16 "
     "imports biased to the rule's modules, batches up to 3x3, a fifth of the rules with related subjects and objects. Oracle: verdict of the set-comprehension model. A case is "
     "non-trivial when at least one import has an endpoint inside a subject's denotation; distinct = distinct "
     "(tree, imports, rule) (by construction in the exhaustive part, by hash in the random part)."
@@ -123,9 +123,9 @@ def plan(tier):
                 ("T4-related-subject-object-pairs", "T4", 3, True, 1, 1, True),
                 ("T4-related-subject-object-batches", "T4", 2, True, 2, 2, True)]
     return [
-        ("T4-related-subject-object-pairs-all-relations", "T4", None, True, 1, 1, True),
-        ("T4-related-subject-object-batches", "T4", 4, True, 2, 2, True),
-        ("T5-related-subject-object-batches", "T5", 3, True, 2, 2, True),
+        ("T4-related-subject-object-pairs", "T4", 6, True, 1, 1, True),
+        ("T4-related-subject-object-batches", "T4", 3, True, 2, 2, True),
+        ("T5-related-subject-object-pairs", "T5", 3, True, 1, 1, True),
         ("T4-all-relations-with-root-targets", "T4", None, True, 2, 2),
         ("T6-relations-up-to-3-edges", "T6", 3, False, 2, 2),
         ("T5-relations-up-to-3-edges", "T5", 3, False, 2, 2),
